@@ -44,6 +44,8 @@ def shards(tier):
     per = 6 if tier == 'quick' else 12
     for i in range(0, len(shp), per):
         out.append({'level': 'B', 'n': n, 'lo': i, 'hi': min(len(shp), i + per), 'tier': tier})
+    for gid in universe.ALIAS_GIDS:
+        out.append({'level': 'G', 'gid': gid, 'tier': tier})
     return out
 
 
@@ -296,10 +298,27 @@ def cases_A(aid, pos, tier):
     return out
 
 
+def cases_G(gid, tier):
+    """object graphs in which the same native instance occurs at several non-nested positions"""
+    out = []
+    for label, v in universe.alias_values(gid, tier):
+        args = [v, 7]
+        casedoc = {'level': 'G', 'gid': gid, 'label': label, 'args': tagged.enc(args)}
+        out.append(('G|%s' % gid, 'G', args, v, None, None, casedoc, True))
+    return out
+
+
 def run_shard(shard):
     res = new_res()
     tier = shard.get('tier', 'quick')
-    if shard['level'] == 'A':
+    if shard['level'] == 'G':
+        program = universe.alias_program(shard['gid'])
+        res['cov']['programs'] += 1
+        cases = cases_G(shard['gid'], tier)
+        run_program(program, cases, res, 'G|%s' % shard['gid'])
+        res['cov']['aliased_graphs'] = len(cases)
+        res['samples'].append({'program': program, 'case': cases[0][6]})
+    elif shard['level'] == 'A':
         at = atom_by_id(shard['atom'])
         program = universe.program_for(at, shard['pos'])
         res['cov']['programs'] += 1
@@ -350,6 +369,12 @@ def replay(case):
         v = tagged.dec(case['value'])
         args, ret, ih, oh = universe.embed(case['pos'], at, v)
         site = '%s|%s|%s' % (case['atom'], case['pos'], vlabel(case['label']))
+    elif case['level'] == 'G':
+        program = universe.alias_program(case['gid'])
+        args = tagged.dec(case['args'])
+        ret = args[0]
+        ih = oh = None
+        site = 'G|%s' % case['gid']
     else:
         shape = json.loads(json.dumps(case['shape']))
         shape = _tuplify(shape)
